@@ -1272,6 +1272,15 @@ func (f *VFSFile) buildIndexMap(ctx context.Context, infos []*ltx.FileInfo) (map
 		commit = hdr.Commit
 	}
 
+	// A later file may shrink the database (auto_vacuum, incremental_vacuum,
+	// VACUUM). Pages beyond the final size no longer exist and must not be
+	// served or counted towards the file size.
+	for pgno := range index {
+		if pgno > commit {
+			delete(index, pgno)
+		}
+	}
+
 	f.mu.Lock()
 	f.commit = commit
 	f.mu.Unlock()
